@@ -18,7 +18,8 @@
 (* that is not its counter) ends the replay with the clause named.         *)
 (* After the last event the answers of the REAL reader (list_sources,      *)
 (* list_cases for every source / case x recurse x flat, get_case: name,    *)
-(* source, counter, variable names per kind, list_source_vars) are judged  *)
+(* source, counter, variable names per kind, get_case(<int>),               *)
+(* list_source_vars) are judged                                            *)
 (* against the True... operators on the specification's own log and the    *)
 (* Selected variable sets (recording options, name sets of the model and   *)
 (* the fnmatch table are part of the trace).                               *)
@@ -71,6 +72,14 @@ VarsOf(r) == LET v == T.vars[r]
                  pin |-> ToSet(v.pin), psrc |-> v.psrc, dvs |-> ToSet(v.dvs), objs |-> ToSet(v.objs), cons |-> ToSet(v.cons)]
 SelOf(r) == Selected(MatchT, r, T.opts[r], VarsOf(r))
 
+\* a wrong set of outputs that is exactly what the pinned record_iteration writes (nothing, unless record_outputs)
+OutWhat(r, got) == IF r \in {"driver", "problem"} /\ got = SelDriverG(MatchT, T.opts[r], VarsOf(r), TRUE).out
+                   THEN "outputs-need-record_outputs" ELSE "outputs"
+\* get_case(<int>): the index-th case of the execution order (T.idx: [i, ans: answer as a one-element listing, cnt: Case.counter])
+IdxBad(k) == LET g == T.idx[k]
+                 e == TrueGetCaseIdx(log, g.i)
+             IN ~(e.k = g.ans.k /\ e.v = g.ans.v /\ (e.k = "flat" => g.cnt = PyPos(Len(log), g.i)))
+BadIdx == SelectSeq([k \in 1..Len(T.idx) |-> k], LAMBDA k : IdxBad(k))
 BadQueries == SelectSeq([k \in 1..Len(T.q) |-> k],
                         LAMBDA k : LET q == T.q[k]
                                        e == TrueListCases(log, q.src, q.rec, q.flat)
@@ -80,7 +89,7 @@ CaseBad(k) == LET c == T.cases[k]
               IN IF c.name # log[k].coord THEN "name"
                  ELSE IF c.source # PublicSource(log[k].req) THEN "source"
                  ELSE IF c.counter # k THEN "counter"
-                 ELSE IF ToSet(c.out) # s.out THEN "outputs"
+                 ELSE IF ToSet(c.out) # s.out THEN OutWhat(log[k].req, ToSet(c.out))
                  ELSE IF ToSet(c.inp) # s.inp THEN "inputs"
                  ELSE IF ToSet(c.res) # s.res THEN "residuals"
                  ELSE "ok"
@@ -88,9 +97,9 @@ BadCases == SelectSeq([k \in 1..Len(T.cases) |-> k], LAMBDA k : CaseBad(k) # "ok
 \* list_source_vars(source): the names in the first case of that source
 SrcVarBad(k) == LET sv == T.srcvars[k]
                     idx == SourceIdx(log, sv.src)
-                IN IF Len(idx) = 0 THEN "unknown-source"
+                IN IF Len(idx) = 0 THEN (IF sv.inp = <<"ERROR:RuntimeError">> THEN "ok" ELSE "unknown-source")      \* 'Source not found
                    ELSE LET s == SelOf(log[idx[1]].req)
-                        IN IF ToSet(sv.out) # s.out THEN "outputs" ELSE IF ToSet(sv.inp) # s.inp THEN "inputs"
+                        IN IF ToSet(sv.out) # s.out THEN OutWhat(log[idx[1]].req, ToSet(sv.out)) ELSE IF ToSet(sv.inp) # s.inp THEN "inputs"
                            ELSE IF ToSet(sv.res) # s.res THEN "residuals" ELSE "ok"
 BadSrcVars == SelectSeq([k \in 1..Len(T.srcvars) |-> k], LAMBDA k : SrcVarBad(k) # "ok")
 
@@ -102,6 +111,7 @@ Final ==
     ELSE LET bq == BadQueries
              bc == BadCases
              bs == BadSrcVars
+             bi == BadIdx
          IN [step |-> "done",
              ncases |-> Len(log),
              order |-> (T.all = Coords(log)),
@@ -115,7 +125,10 @@ Final ==
                            out |-> SeqOfSet(SelOf(log[bc[j]].req).out), inp |-> SeqOfSet(SelOf(log[bc[j]].req).inp),
                            res |-> SeqOfSet(SelOf(log[bc[j]].req).res)]],
              nbadc |-> Len(bc),
-             bads |-> [j \in 1..Len(bs) |-> [s |-> bs[j], what |-> SrcVarBad(bs[j])]]]
+             bads |-> [j \in 1..Len(bs) |-> [s |-> bs[j], what |-> SrcVarBad(bs[j])]],
+             badi |-> [j \in 1..(IF Len(bi) < 4 THEN Len(bi) ELSE 4) |->
+                          [g |-> bi[j], exp |-> TrueGetCaseIdx(log, T.idx[bi[j]].i), pos |-> PyPos(Len(log), T.idx[bi[j]].i)]],
+             nbadi |-> Len(bi)]
 
 Step == /\ verdict.step = "ok"
         /\ l <= Len(T.ev)
